@@ -123,7 +123,7 @@ def from_tlc(beh):
     ops += [dict(k="end")] * depth
     ops += closing_exports()
     c = beh["cfg"]
-    return dict(cfg=dict(cs=c["cs"], term=c["term"], width=c["width"], record=c["record"]), chunks=chunks, ops=ops)
+    return dict(cfg=dict(cs=c["cs"], term=c["term"], width=c["width"], record=c["record"], nocolor=c.get("nocolor", False)), chunks=chunks, ops=ops)
 
 
 def closing_exports():
@@ -133,7 +133,7 @@ def closing_exports():
 
 
 def random_case(rng, maxops):
-    cfg = dict(cs=rng.choice(CSS), term=rng.random() < 0.6, width=rng.choice([12, 20, 30, 40, 80]), record=rng.random() < 0.98)
+    cfg = dict(cs=rng.choice(CSS), term=rng.random() < 0.6, width=rng.choice([12, 20, 30, 40, 80]), record=rng.random() < 0.98, nocolor=rng.random() < 0.15)
     captures = rng.random() < 0.5
     n = rng.randint(2, maxops)
     chunks, ops, depth = {}, [], 0
@@ -234,6 +234,7 @@ def execute(case, tmpdir):
     from rich.table import Table
     from rich.text import Text
     cfg, chunks, ops = case["cfg"], case["chunks"], case["ops"]
+    cfg.setdefault("nocolor", False)
     styles = style_pool()
     clock = [0]
 
@@ -244,7 +245,7 @@ def execute(case, tmpdir):
         tap = Tap()
         return Console(file=tap, record=record, force_terminal=cfg["term"], color_system=None if cfg["cs"] == "none" else cfg["cs"],
                        width=cfg["width"], height=25, markup=False, highlight=False, emoji=False, legacy_windows=False,
-                       get_datetime=now, _environ={}), tap
+                       get_datetime=now, _environ={}, no_color=bool(cfg.get("nocolor", False))), tap
     real, rtap = mk(cfg["record"])
     twin, ttap = mk(False)
     nchunks = max([int(i) for i in chunks] + [1])
